@@ -74,6 +74,7 @@ def prove(ob, func, hyp, goal, kind="deciding", timeout_s=10.0, model_vars=None,
                 extra["known"] = hits
                 extra["known_model"] = r["model"]
                 r = dict(r2, status="known")
+                _solve.VIOLATION_BUDGET["left"] += 1  # a known finding does not use up the violation budget
             elif r2["status"] == "violated":
                 r = r2  # a different violation remains: report that one
             else:
